@@ -8,7 +8,8 @@
 //!              (reference start line/column); programs with an `error`, `assert`, failing call or
 //!              syntax error planted at a known offset, evaluated in-process → `loc.start`;
 //!              `std.trace` planted at a known offset, location taken the way `StdTracePrinter`
-//!              takes it → `loc.line`.
+//!              takes it → `loc.line`; which offset every kind of syntax error reports
+//!              (`c17_synkind.rs`) → `syn.kind`.
 //! * `c17lex` — lexer ranges / rowan tree text on token soups, random strings and mutated programs
 //!              → `lex.tile` (observation); spans of the parsed IR → `ast.spans` (observation).
 //! * `c17cli` — the `jrsonnet` binary on planted programs: `TRACE: file:line` and the error trace on
@@ -34,6 +35,8 @@ mod c17_multi;
 mod c17_block;
 #[path = "c17_same.rs"]
 mod c17_same;
+#[path = "c17_synkind.rs"]
+mod c17_synkind;
 
 fn cps(s: &str) -> Vec<u32> {
 	s.chars().map(|c| c as u32).collect()
@@ -590,6 +593,9 @@ fn run_loc(opts: &Opts) {
 		}
 		planted_case(&mut w, &s, &cap, &p);
 	}
+	// which offset every kind of syntax error reports (own PRNG stream: the other cases keep their seeds)
+	let mut rng_syn = Rng::new(opts.seed ^ 0x517A_17);
+	c17_synkind::run_synkinds(&mut w, &mut rng_syn, &s, opts.thorough(), &mut hist);
 	drop(_g);
 	// traces over several files: planted multi-file programs and synthetic multi-source traces
 	c17_multi::run_multi(&mut w, &mut rng, &opts.out, opts.thorough(), &mut hist);
@@ -600,7 +606,7 @@ fn run_loc(opts: &Opts) {
 	c17_same::run_same_programs(&mut w, &mut rng_same, &opts.out, opts.thorough(), &mut hist);
 	let meta = json!({
 		"engine":"c17","cases":w.n,"texts":n_text + fixed.len(),"planted":n_plant,"hist":hist,
-		"rule":"texts over {ASCII, tab, LF, CRLF, lone CR, 2/3/4-byte chars, combining mark, U+2028, U+0085} up to 120 chars: map_source_locations at every character boundary singly and in tuples of 2..5 (unsorted, repeated, off-boundary, past the end) vs model and reference; 8 synthetic trace frames per text rendered by CompactFormat vs print model and reference start; programs with error / assert / object assert / failing call (callee + call site) / syntax error / std.trace / field error planted after comment, blank, CRLF, multi-byte filler lines and after ASCII or non-ASCII text on the same line; multi-file programs (main + 1-2 imported libraries, main as file or as virtual snippet) where the failing construct in the library and the call/import in the importer are padded to IDENTICAL start/end byte offsets on different lines/columns: every frame's line/column vs the reference of ITS OWN file through CompactFormat, JsFormat (column convention: finding) and HiDocFormat (observed highlight); synthetic traces over 2-3 virtual sources with shared spans: whole CompactFormat output vs the writeTrace model; SAME DISPLAYED NAME: synthetic traces over 2-4 sources that are all displayed alike (virtual:S, fifo(<inline code>), files of one base name in different directories, one path with several texts) under PathResolver FileName / Absolute / Relative, texts related by heads of equal byte length (same offsets, other line/column) or of equal line structure (same line/column, other offsets), repeated frames: whole CompactFormat output vs writeTrace, every start vs the reference of its own text, JsFormat; real programs (ext-code chains, functions through tla-codes, tla+ext, two snippets under one name, import and call chains through equally named files) in-process under each resolver through CompactFormat, JsFormat and HiDocFormat (observed); ImportSyntaxError at arbitrary offsets vs the syntaxErrorLoc model"
+		"rule":"texts over {ASCII, tab, LF, CRLF, lone CR, 2/3/4-byte chars, combining mark, U+2028, U+0085} up to 120 chars: map_source_locations at every character boundary singly and in tuples of 2..5 (unsorted, repeated, off-boundary, past the end) vs model and reference; 8 synthetic trace frames per text rendered by CompactFormat vs print model and reference start; programs with error / assert / object assert / failing call (callee + call site) / syntax error / std.trace / field error planted after comment, blank, CRLF, multi-byte filler lines and after ASCII or non-ASCII text on the same line; multi-file programs (main + 1-2 imported libraries, main as file or as virtual snippet) where the failing construct in the library and the call/import in the importer are padded to IDENTICAL start/end byte offsets on different lines/columns: every frame's line/column vs the reference of ITS OWN file through CompactFormat, JsFormat (column convention: finding) and HiDocFormat (observed highlight); synthetic traces over 2-3 virtual sources with shared spans: whole CompactFormat output vs the writeTrace model; SAME DISPLAYED NAME: synthetic traces over 2-4 sources that are all displayed alike (virtual:S, fifo(<inline code>), files of one base name in different directories, one path with several texts) under PathResolver FileName / Absolute / Relative, texts related by heads of equal byte length (same offsets, other line/column) or of equal line structure (same line/column, other offsets), repeated frames: whole CompactFormat output vs writeTrace, every start vs the reference of its own text, JsFormat; real programs (ext-code chains, functions through tla-codes, tla+ext, two snippets under one name, import and call chains through equally named files) in-process under each resolver through CompactFormat, JsFormat and HiDocFormat (observed); ImportSyntaxError at arbitrary offsets vs the syntaxErrorLoc model; WHICH offset each kind of syntax error of the default parser reports: 86 token templates (eat ) ] } ; = then in : ( / identifier / string escape / infinite number / duplicate parameter = the repeated occurrence / positional after named / field name / object comprehension = closing brace / unexpected token / junk after the program / end of input = end of the last token / 16 lexer error kinds = first byte of the lexeme / no token = offset 0), offender at an offset known by construction after header lines of varying length, tokens on one line, one per line or separated by generated trivia (tab, LF, CRLF, block and line comments with multi-byte characters): raw ParseError offset and CompactFormat location vs the offender's offset, its reference line/column and the syntaxErrorLoc model (syn.kind)"
 	});
 	w.finish(meta, &opts.out);
 }
@@ -919,8 +925,11 @@ fn run_cli(opts: &Opts) {
 	// several sources under one displayed name (ext-code / tla-code snippets, equally named files)
 	let mut rng_same = Rng::new(opts.seed ^ 0x5A3E_C1);
 	c17_same::run_same_cli(&mut w, &mut rng_same, &bin, &dir, opts.thorough(), &mut hist);
+	// which offset every kind of syntax error reports, through the binary
+	let mut rng_syn = Rng::new(opts.seed ^ 0x517A_C1);
+	c17_synkind::run_synkinds_cli(&mut w, &mut rng_syn, &bin, &dir, opts.thorough(), &mut hist);
 	let meta = json!({"engine":"c17cli","cases":w.n,"hist":hist,
-		"rule":"programs whose frames lie in several sources displayed under ONE name (std.extVar chains over 2-4 --ext-code snippets, functions passed between 2-3 --tla-code snippets, tla+ext mixes, import/call chains through files all called lib.libsonnet; main as -e or file, relative or absolute; compact and explaining formats), planted spans with identical byte offsets on different lines/columns, or the same line/column at different offsets: every frame vs the reference of its own text; multi-file programs (main + 1-2 libraries, frames padded to identical byte offsets in different files) through the binary: every frame vs the reference of its own file; planted programs (same generator as c17) written to a file and run through the jrsonnet binary: line of `TRACE: file:line` (StdTracePrinter) and start line/column of the named frame in the stderr trace vs the reference"});
+		"rule":"programs whose frames lie in several sources displayed under ONE name (std.extVar chains over 2-4 --ext-code snippets, functions passed between 2-3 --tla-code snippets, tla+ext mixes, import/call chains through files all called lib.libsonnet; main as -e or file, relative or absolute; compact and explaining formats), planted spans with identical byte offsets on different lines/columns, or the same line/column at different offsets: every frame vs the reference of its own text; multi-file programs (main + 1-2 libraries, frames padded to identical byte offsets in different files) through the binary: every frame vs the reference of its own file; planted programs (same generator as c17) written to a file and run through the jrsonnet binary: line of `TRACE: file:line` (StdTracePrinter) and start line/column of the named frame in the stderr trace vs the reference; the syntax-error-kind templates of c17 (one per line and mixed separators) through the binary: the printed location vs the reference line/column of the offending token"});
 	w.finish(meta, &opts.out);
 }
 
